@@ -5,13 +5,16 @@
    outside x3000-xFDFF is denied with AccessViolation and changes NOTHING (not memory, not a
    device, not the observer); a permitted unprivileged read changes only the observer; a permitted
    unprivileged write changes exactly that one user-space word; RTI is a privilege violation that
-   changes nothing.  (The composition over whole steps — "a user-mode step that does not enter a
-   handler leaves supervisor memory and device state unchanged" — is checked on the implementation
-   by harness area simprops and, through C08, inherited from the reference semantics; its direct
-   Coq statement is C09_user_step_partial below / pending.) *)
+   changes nothing.  Composed over whole instructions (C09_user_instruction_confined,
+   C09_user_fetch_execute_confined): in user mode with checks on, fetching and executing any
+   instruction other than TRAP — whatever its addressing mode and operands, on every path
+   including the error paths — leaves the machine in user mode and leaves every memory word
+   outside user space, every device, the supervisor stack pointer, the MCR and the
+   internal-register mappings exactly as they were.  TRAP and interrupts enter the OS through
+   the vector table: their privileged accesses are exactly those of [enter] (C08_entry_refines). *)
 From Coq Require Import ZArith List Bool.
 From Model Require Import Bits Word Instr Sim.
-From Proofs Require Import SimAccess.
+From Proofs Require Import SimAccess SimUser.
 Open Scope Z_scope.
 
 Theorem C09_user_context_unprivileged : forall s,
@@ -47,6 +50,33 @@ Theorem C09_rti_user : forall e s,
   exec e SRTI s = (s, inr (BErr PrivilegeViolation)).
 Proof. intros e s P I. apply rti_user. split; assumption. Qed.
 Print Assumptions C09_rti_user.
+
+(* [U s0 s]: s is in user mode (PSR bit 15 set, 16-bit PSR) and agrees with s0 on everything a
+   user program must not change *)
+Theorem C09_user_instruction_confined : forall e i s0 s,
+  is_trap i = false -> U s0 s -> U s0 (fst (exec e i s)).
+Proof. intros e i s0 s NT H. exact (inv_U_exec e i s0 NT s H). Qed.
+Print Assumptions C09_user_instruction_confined.
+
+Theorem C09_user_fetch_execute_confined : forall e s0 s,
+  U s0 s ->
+  (forall i, decode (w_data (mget (s_mem s) (s_pc s))) = DOk i -> is_trap i = false) ->
+  U s0 (fst (fetch_exec_u e s)).
+Proof. exact user_fetch_exec_confined. Qed.
+Print Assumptions C09_user_fetch_execute_confined.
+
+(* the invariant is what it should be, and holds initially for every user-mode state *)
+Theorem C09_invariant_meaning : forall s0 s, U s0 s ->
+  psr_privileged (s_psr s) = false /\ s_devs s = s_devs s0 /\ s_saved_sp s = s_saved_sp s0 /\ s_mcr s = s_mcr s0
+  /\ (forall a, 0 <= a -> in_user a = false -> mget (s_mem s) a = mget (s_mem s0) a).
+Proof.
+  intros s0 s (P & F & I & M & D & SS & MC & IR). repeat split; try assumption. apply user_psr_not_priv. exact P.
+Qed.
+Print Assumptions C09_invariant_meaning.
+
+Theorem C09_invariant_initial : forall s, 32768 <= s_psr s < 65536 -> fl_ignore_priv (s_flags s) = false -> U s s.
+Proof. exact U_refl. Qed.
+Print Assumptions C09_invariant_initial.
 
 Example C09_ex : in_user 12287 = false /\ in_user 12288 = true /\ in_user 65023 = true /\ in_user 65024 = false.
 Proof. vm_compute. repeat split. Qed.
